@@ -7,3 +7,4 @@ func verifBegin(e *EventSubscription) {}
 func verifYield(e *EventSubscription) {}
 func verifEnd(e *EventSubscription)   {}
 func verifGo(f func()) bool           { return false }
+func verifThrottle(t *Throttle)       {}
